@@ -21,10 +21,12 @@ type dec struct {
 }
 
 type jent struct {
-	p   *Value
-	old Value
-	m   *MapV
-	me  []mapEntry
+	p     *Value
+	old   Value
+	m     *MapV
+	me    []mapEntry
+	ch    *ChanV
+	chOld []Value
 }
 
 type obl struct {
@@ -149,7 +151,9 @@ func (w *Worker) storeSlot(p *Value, v Value) {
 func (w *Worker) rollback(mark int) {
 	for i := len(w.journal) - 1; i >= mark; i-- {
 		e := w.journal[i]
-		if e.m != nil {
+		if e.ch != nil {
+			e.ch.buf = e.chOld
+		} else if e.m != nil {
 			e.m.entries = e.me
 		} else {
 			*e.p = e.old
